@@ -114,6 +114,26 @@ def top_cases(rng, n):
     return cases
 
 
+def big_sieve_cases(rng, n):
+    """single-threaded counts whose sieve array exceeds 4 MiB (sieve size 8192 KiB, stop above 4.4e14, more than
+    1.26e8 numbers): the only configuration in which SievingPrime's multipleIndex uses its top bit"""
+    cases = []
+    for _ in range(n):
+        a = rng.choice([10 ** 15, 7 * 10 ** 14, 3 * 10 ** 15]) + rng.below(10 ** 9)
+        cases.append((a, a + 160 * 10 ** 6 + rng.below(10 ** 6), 8192, "sieve array above 4 MiB"))
+    return cases
+
+
+def mr_prime_count_pieces(a, b, pieces=32):
+    """pi(b) - pi(a-1) by Miller-Rabin, the interval cut into pieces (prime counts are additive)"""
+    step = (b - a) // pieces + 1
+    ivs = [(x, min(b, x + step - 1)) for x in range(a, b + 1, step)]
+    res = mr_counts(ivs)
+    if any(r is None for r in res):
+        return None
+    return sum(r[0] for r in res)
+
+
 def mr_counts(intervals):
     """six counts per interval from the harness' Miller-Rabin (api_probe MRCOUNT), in parallel"""
     exe = ps.build_probe("api_probe")
